@@ -249,6 +249,10 @@ def r4(ctx) -> None:
     from glint.rules import c02
 
     c02.r2(ctx, rule="C01-R4")
+    from glint.rules.c10 import r3 as ownership
+
+    ownership(ctx, rule="C01-R4", scope=("glotaran/optimization/matrix_provider.py", "glotaran/optimization/data_provider.py",
+                                         "glotaran/optimization/estimation_provider.py"), floors=False)
 
 
 def check(ctx) -> None:
